@@ -1,5 +1,6 @@
+import DriverOps.C04
 import DriverOps.Core
 open Lean
 namespace DriverOps
-def tables : List (String → Array Json → R (Option Json)) := [core]
+def tables : List (String → Array Json → R (Option Json)) := [c04, core]
 end DriverOps
